@@ -18,9 +18,9 @@ enum K { ENABLE, DISABLE, DESTROY, RAISE };
 struct Op { int k, a; };
 static const char *kN[] = {"enable", "disable", "destroy", "raise"};
 static const int SIGS[2] = {SIGUSR1, SIGUSR2};
-static const int NE = 4;
-// event -> (loop, signals bitmask, oneshot)
-static const int EV_LOOP[NE] = {0, 0, 1, 1}; static const int EV_SIGS[NE] = {1, 3, 1, 2}; static const bool EV_ONESHOT[NE] = {false, false, true, false};
+static const int NE = 5;
+// event -> (loop, signals bitmask, oneshot); e4 is a one-shot event on a two-signal set
+static const int EV_LOOP[NE] = {0, 0, 1, 1, 0}; static const int EV_SIGS[NE] = {1, 3, 1, 2, 3}; static const bool EV_ONESHOT[NE] = {false, false, true, false, true};
 
 static volatile sig_atomic_t g_sentinel_calls = 0;
 static void sentinel_plain(int) { g_sentinel_calls++; }
